@@ -332,6 +332,13 @@ def rule_failfields(chk):
                         found[k] = n
     n = found[EX]
     txt = unparse(n.ast.value) if n is not None else ""
+    if n is not None and isinstance(n.ast.value, ast.Call) and len(n.ast.value.args) == 1 and unparse(n.ast.value.args[0]) in ("%s.__class__" % pname, "type(%s)" % pname):
+        # a helper that builds '<module>.<name>' from the class it is given
+        for g in ctx.targets(f, n.ast.value):
+            if len(g.params) == 1:
+                body = " ".join(unparse(s_) for s_ in g.node.body)
+                if "%s.__module__" % g.params[0] in body and "%s.__name__" % g.params[0] in body:
+                    txt = "%s.__class__.__module__ %s.__class__.__name__ (via %s)" % (pname, pname, g.fq)
     chk.req(n is not None and "%s.__class__.__module__" % pname in txt and "%s.__class__.__name__" % pname in txt,
             "C03.failfields", "Action.finish:exception-class-name", chk.where(f, n.lineno if n else None),
             good="exception = '<module>.<name>' of the exception's class", fail="exception field is %s" % (txt or "missing"))
